@@ -497,6 +497,11 @@ class RaftNode(Entity):
             self._step_down(term)
             return [self._schedule_election_timeout()]
 
+        if term < self._current_term:
+            # Reply to a request of an earlier term of ours: our log may have
+            # been rewritten since, so its match_index says nothing about it.
+            return []
+
         if self._state != RaftState.LEADER:
             return []
 
